@@ -97,6 +97,19 @@ class Sim(object):
     def _charge(self):
         if self.jitter:
             self.now += self.tape.draw(self.jitter + 1) * 0.00025
+            self._fire_due_timers()
+
+    def _fire_due_timers(self):
+        """Computation that costs time can carry the clock past the deadline of a blocked task: that task is
+        runnable from then on (it competes at the following scheduling points)."""
+        while self.timers and self.timers[0][0] <= self.now:
+            e = heapq.heappop(self.timers)
+            t = e[2]
+            if t.wait_token == e[3] and t.state == BLOCKED:
+                t.state = RUNNABLE
+                t.wake_reason = 'timeout'
+                t.wait_token += 1
+                self.run.ev('timer-due', round(e[0], 6), t.id)
 
     # ------------------------------------------------------------------ tracing
     def _is_target(self, filename):
@@ -337,7 +350,13 @@ class Sim(object):
             sys.settrace(None)
             if task.killed:
                 task.state = DEAD
+                for j in task.joiners:
+                    self.wake(j, 'joined')
+                task.joiners = []
                 task.unwound.set()
+                if self.current is task and not self.shut:
+                    # the task killed itself (it still holds the baton): hand over
+                    self._handover_after_exit()
             else:
                 self._finish(task)
 
@@ -356,6 +375,9 @@ class Sim(object):
         task.unwound.set()
         if self.shut:
             return
+        self._handover_after_exit()
+
+    def _handover_after_exit(self):
         try:
             nxt = self._next()
         except SimLimit:
